@@ -266,13 +266,51 @@ def wrapper_impl(facts):
 
 
 def _check_like(binc, callee):
-    """A function over an io::Result that looks at the error's kind: takes a Result<_, io::Error> as its first
-    argument, returns the same type, and asks for the error's kind() somewhere in its (inlined) body."""
-    if callee.nargs < 1 or not callee.local_ty(1).startswith("std::result::Result<") or "std::io::Error" not in callee.local_ty(1):
-        return False
-    if callee.local_ty(0) != callee.local_ty(1):
+    """A function that hands back an io::Result and asks for an error's kind() somewhere in its (inlined) body:
+    the scope in which the broken-pipe check lives (`fn check(r: io::Result<T>) -> io::Result<T>`, or a
+    `fn checked(&mut self, op: impl FnOnce(&mut W) -> io::Result<T>) -> io::Result<T>` that runs `op` itself)."""
+    rt = callee.local_ty(0)
+    if not (rt.startswith("std::result::Result<") and "std::io::Error" in rt):
         return False
     return any((fn_of(t) or {}).get("def") == "std::io::Error::kind" for _, _, t in Super(binc, callee, depth=2).calls())
+
+
+_IDENTITY_COMBINATORS = ("std::result::Result::<T, E>::map_err", "std::result::Result::<T, E>::inspect_err", "std::result::Result::<T, E>::or_else")
+
+
+def _closure_returns_param(binc, cid):
+    """The closure hands back its own (first) value parameter unchanged (`|err| { ..; err }`)."""
+    cb = binc.by_id.get(cid)
+    if cb is None:
+        return False
+    tr = trace(cb, {"k": "copy", "p": {"l": 0, "pr": []}})
+    if tr.origin == ("arg", 2) and all(s_[0] == "use" for s_ in tr.steps):
+        return True
+    # `Err(err)` for or_else-style closures
+    if tr.origin and tr.origin[0] == "agg" and tr.origin[1]["rv"].get("variant") == "Err" and tr.origin[1]["rv"]["ops"]:
+        t2 = trace(cb, tr.origin[1]["rv"]["ops"][0])
+        return t2.origin == ("arg", 2) and all(s_[0] == "use" for s_ in t2.steps)
+    return False
+
+
+def _derives_unchanged(binc, sup, node, op, target_call, depth=0):
+    """The value read by `op` at `node` is the result of `target_call`, unchanged: through moves, helper
+    parameters and returns, and through `.map_err(|e| { ..; e })`-style combinators that give the error back."""
+    if depth > 6:
+        return False
+    tr = strace_deep(sup, node, op)
+    if not (tr.origin and tr.origin[0] == "call" and all(s_[0] in ("use", "enter_caller", "enter_callee", "ref", "deref") for s_ in tr.steps)):
+        return False
+    ct = tr.origin[2]
+    if ct is target_call:
+        return True
+    cf = fn_of(ct) or {}
+    onode = (tr.origin_node[0], tr.origin[1])
+    if cf.get("def") in _IDENTITY_COMBINATORS and ct["args"]:
+        cls = cf.get("closures", [])
+        if cf["def"].endswith("inspect_err") or (cls and all(_closure_returns_param(binc, c) for c in cls)):
+            return _derives_unchanged(binc, sup, onode, ct["args"][0], target_call, depth + 1)
+    return False
 
 
 def _wrapper_methods(ctx):
@@ -350,19 +388,25 @@ def r16_1(ctx):
                 args_ok = False
         ctx.ob(f"{name}:args-pass-through", args_ok, sup.site(inode),
                "inner call receives self's writer and the method's own arguments unchanged" if args_ok else "arguments are altered before reaching the inner writer")
-        # the method returns check(inner result)
+        # the method returns the inner call's result, and on the way the kind() of that very result's error is
+        # tested for BrokenPipe (whatever the shape of the helper that does it)
         ok = False
         det = "the inner writer's result is returned without the broken-pipe check"
-        if ret_tr is not None and ret_tr.origin and ret_tr.origin[0] == "call" and chk:
-            cnode = (ret_tr.origin_node[0], ret_tr.origin[1])
-            ct = ret_tr.origin[2]
-            if ct["args"]:
-                a0 = strace_deep(sup, cnode, ct["args"][0])
-                if a0.origin and a0.origin[0] == "call" and a0.origin[2] is it_ and all(s_[0] in ("use", "enter_caller", "enter_callee") for s_ in a0.steps):
-                    ok = True
-                    det = "returns check(inner result)"
-                else:
-                    det = "the checked value is not the inner call's result"
+        rets = b.return_blocks()
+        tests = [kt for kt in kind_tests(sup) if kt.named() == ["BrokenPipe"]]
+        examined = False
+        for kt in tests:
+            ktr = strace_deep(sup, kt.kind_node, kt.kind_call["args"][0])
+            if ktr.origin and ktr.origin[0] == "call" and ktr.origin[2] is it_ and any(s_[0] == "downcast" and s_[1] == "Err" for s_ in ktr.steps):
+                examined = True
+        returned = bool(rets) and _derives_unchanged(ctx.bin, sup, ((), rets[0]), {"k": "copy", "p": {"l": 0, "pr": []}}, it_)
+        if examined and returned and chk:
+            ok = True
+            det = "returns the inner call's result after testing its error's kind() for BrokenPipe"
+        elif returned and not examined:
+            det = "the inner writer's result is returned without the broken-pipe check"
+        elif examined and not returned:
+            det = "the value returned is not the inner call's result"
         ctx.ob(f"{name}:checked-return", ok, site(b), det)
         checks |= set(chk)
     ctx.ob("single-check-function", len(checks) == 1, wty, f"check function(s): {sorted(checks)}")
@@ -397,6 +441,12 @@ def r16_2(ctx):
         n, kcall = kt.kind_node, kt.kind_call
         ptr = strace(sup, n, kcall["args"][0])
         kind_ok = bool(ptr.origin and ptr.origin[0] == "arg" and ptr.origin[1] == 1 and not ptr.origin_node[0] and any(s[0] == "downcast" and s[1] == "Err" for s in ptr.steps))
+        # or the scope produces the checked result itself (`op(&mut self.inner).map_err(|err| ..)`): the call whose
+        # Err payload is examined
+        produced = None
+        if not kind_ok and ptr.origin and ptr.origin[0] == "call" and any(s[0] == "downcast" and s[1] == "Err" for s in ptr.steps) and c.local_ty(ptr.origin[2]["dest"]["l"] if not ptr.origin_node[0] else 0).startswith("std::result::Result<"):
+            produced = ptr.origin[2]
+            kind_ok = not ptr.origin_node[0]
         ctx.ob("kind-of-the-argument-error", kind_ok, sup.site(n), "compares kind() of the Err payload of the checked result" if kind_ok else "the compared kind is not that of the checked result's error")
         sn = kt.node
         bp = [(lab, dst) for lab, dst, ks in kt.edges if ks == {"BrokenPipe"}]
@@ -422,7 +472,10 @@ def r16_2(ctx):
                "the BrokenPipe edge never returns to the caller" if div_ok else "the BrokenPipe edge can return to the caller (would surface as an error message or exit 0)")
         # the other edge(s) return the argument unchanged
         rets_ok = bool(c.whole_defs(0))
-        for dbb, idx, kind, payload in c.whole_defs(0):
+        if produced is not None:
+            rb = c.return_blocks()
+            rets_ok = bool(rb) and _derives_unchanged(binc, sup, ((), rb[0]), {"k": "copy", "p": {"l": 0, "pr": []}}, produced)
+        for dbb, idx, kind, payload in (c.whole_defs(0) if produced is None else []):
             if kind != "assign":
                 rets_ok = False
                 continue
